@@ -243,6 +243,7 @@ class Net:
             self.sent[(j, i)] = []
         self.errors = []
         self.transferred_blocks = 0
+        self.held = set()     # nodes whose traffic and manager steps are withheld (a slow / late part of the network)
 
     def close(self):
         for s in self.socks:
@@ -275,7 +276,7 @@ class Net:
                         self.sent[(src, dst)].append(("T", m.data.hash(), h.in_response_to))
 
     def in_flight(self):
-        return [k for k, q in self.queues.items() if q]
+        return [k for k, q in self.queues.items() if q and k[0] not in self.held and k[1] not in self.held]
 
     def peer_for(self, src, dst):
         for (i, pi, j, pj) in self.links:
@@ -302,6 +303,8 @@ class Net:
         self.collect()
 
     def step_chain(self, i):
+        if i in self.held:
+            return
         orig = pyrandom.choice
         pyrandom.choice = lambda seq: seq[self.rng.randrange(0, len(seq))]
         try:
@@ -325,10 +328,21 @@ class Net:
             src, dst = self.rng.choice(sorted(self.in_flight()))
             self.deliver(src, dst)
 
-    def run_to_fixpoint(self, max_windows=60):
-        """until a whole back-off window passes in which every fetch is answered empty"""
+    def run_to_fixpoint(self, max_windows=60, late=()):
+        """until a whole back-off window passes in which every fetch is answered empty; the nodes in `late` take part
+        only after the others have reached a fixpoint among themselves (staged schedule: one of the fair schedules)"""
         for lp_i in range(len(self.nodes)):
             self.step_net(lp_i)                      # greetings
+        if late:
+            self.held = set(late)
+            first = self._windows(max_windows)
+            self.held = set()
+            if first is None:
+                return None
+        self.drain()
+        return self._windows(max_windows)
+
+    def _windows(self, max_windows):
         self.drain()
         for w in range(max_windows):
             node.CLOCK[0] += 61 + self.rng.randrange(0, 30)   # past EMPTY_INVENTORY_BACKOFF and IBD_PEER_TIMEOUT
@@ -419,9 +433,16 @@ def part_b(ctx, res):
         blockstore.DefaultBlockStore.instance.write_blocks_to_disk([b for b in tree.blocks if b.height > 0])
         node.CLOCK[0] = max(b.timestamp for b in tree.blocks) + 100000
         edges = rng.choice(topologies[n_nodes])
+        late = ()
+        if beyond and (ri % 6 == 1 or rng.random() < 0.5):
+            # a line; the shortest node first synchronises with the middle one (whose first reply overlaps what it has),
+            # and only then does the middle one hear from the longest
+            edges = [(0, 1), (1, 2)]
+            late = (2,)
+            res.count("staged_line")
         net = Net(rng, coinstates, edges)
-        windows = net.run_to_fixpoint()
-        info = {"run": ri, "nodes": n_nodes, "edges": edges, "batch": batch, "fork": depth_kind,
+        windows = net.run_to_fixpoint(late=late)
+        info = {"run": ri, "nodes": n_nodes, "edges": edges, "batch": batch, "fork": depth_kind, "late": list(late),
                 "heights": [cs.head().height for cs in coinstates]}
         res.case(("net", ri, tuple(tips)), nontrivial=True)
         res.count("topology:%d-node/%d-edges" % (n_nodes, len(edges)))
